@@ -149,27 +149,29 @@ def build_graph(tlc_out, module, graph_path):
 # Go harness
 # ---------------------------------------------------------------------------
 
-def write_overlay(path):
-    """Map every file under /verif/harness into /repo without touching it."""
+def write_overlay(path, harness_files):
+    """Map verifkit and the listed harness files (paths relative to
+    /verif/harness, e.g. "generics/ttl_test.go") into /repo without touching it."""
     repl = {}
-    for root, _dirs, files in os.walk(HARNESS):
+    for root, _dirs, files in os.walk(os.path.join(HARNESS, "verifkit")):
         rel = os.path.relpath(root, HARNESS)
         for f in files:
-            if not f.endswith(".go"):
-                continue
-            src = os.path.join(root, f)
-            if rel == "verifkit" or rel.startswith("verifkit/"):
-                dst = os.path.join(REPO, "internal", rel, f)
-            else:
-                dst = os.path.join(REPO, rel, "zzverif_" + f)
-            repl[dst] = src
+            if f.endswith(".go"):
+                repl[os.path.join(REPO, "internal", rel, f)] = os.path.join(root, f)
+    for hf in harness_files:
+        src = os.path.join(HARNESS, hf)
+        if not os.path.exists(src):
+            raise CannotDecide(f"harness file {src} missing")
+        d, f = os.path.split(hf)
+        repl[os.path.join(REPO, d, "zzverif_" + f)] = src
     with open(path, "w") as fh:
         json.dump({"Replace": repl}, fh)
     return path
 
 
-def run_go_test(pkg, run_regex, env_extra, timeout, race=False, tags="verif", extra=None):
-    ov = write_overlay(os.path.join(BUILD, f"overlay_{os.getpid()}.json"))
+def run_go_test(pkg, run_regex, env_extra, timeout, harness_files, race=False, tags="verif", extra=None):
+    os.makedirs(BUILD, exist_ok=True)
+    ov = write_overlay(os.path.join(BUILD, f"overlay_{os.getpid()}.json"), harness_files)
     env = go_env()
     env.update({k: str(v) for k, v in env_extra.items()})
     cmd = ["go", "test", "-vet=off", "-tags", tags, "-overlay", ov, "-count=1",
